@@ -243,6 +243,11 @@ def r04b(ck, prog):
                             pa, pl = F.cfg.position(a), F.cfg.position(loops[1].child("cond"))
                             if F.cfg.dominates(pl, pa) and not a.within(loops[1]):
                                 ok = True
+                recognised = any(len([x for x in z.ancestors() if x.k == "ForStmt"]) >= 2 and
+                                 induction_bound([x for x in z.ancestors() if x.k == "ForStmt"][0]) and
+                                 induction_bound([x for x in z.ancestors() if x.k == "ForStmt"][1]) for z in zero)
+                if not ok and not recognised:
+                    raise AnalysisBroken("R04b: the loop nest of dealign_msa that zeroes the gap counts is not in a recognised counting form")
                 if not ok:
                     ck.violation("R04b", "R04b/dealign_msa/zeroing", where,
                                  "dealign_msa marks the msa unaligned without an unconditional loop zeroing gaps[0..len] "
@@ -373,7 +378,7 @@ def r04c(ck, prog):
         calls = [cfg.position(c) for c in M.body.calls(need)]
         n += 1
         ck.inst("R04c", site(prog, M, need), "merge_msa recomputes via %s on every success path" % need, prog.config)
-        if not calls or any(cfg.reaches(None, s, avoid=calls) for s in succ):
+        if not calls or M.succeeds_avoiding(calls):
             ck.violation("R04c", "R04c/merge_msa/%s" % need, site(prog, M),
                          "merge_msa can succeed without %s: the merged msa keeps the kind/status/profile tables of the first file" % need,
                          prog.config)
